@@ -80,8 +80,14 @@ def _process_chunk(ctx, cases, kinds):
         if nbad:
             bad += 1
             # confirm on the real code with the independent Python interpreter
-            from ..ilinterp import eval_index_lambda
-            _, it = eval_index_lambda(c.il, c.bind_data)
+            from ..ilinterp import ILError, eval_index_lambda
+            try:
+                _, it = eval_index_lambda(c.il, c.bind_data)
+            except ILError as e:
+                ctx.violation(f"oob:index-lambda:{c.kind}:ill-formed",
+                              f"to_index_lambda({c.kind}) is not a well-formed index lambda: {e} (params {c.params})",
+                              {"kind": c.kind, "params": c.params, "expr": str(c.il.expr)})
+                continue
             oob = [o for o in it.oob if not o[2]]
             if oob:
                 ctx.violation(f"oob:index-lambda:{c.kind}",
